@@ -130,6 +130,21 @@ class Body:
     def dominates(self, a, b):
         return a in self.dom[b]
 
+    def diverges(self, b):
+        """no normal return is reachable from block b (it ends in a panic / abort)"""
+        if not hasattr(self, '_div'):
+            ex = set(self.exits)
+            can = set(ex)
+            changed = True
+            while changed:
+                changed = False
+                for i in range(self.n):
+                    if i not in can and any(x in can for x in self.succ[i]):
+                        can.add(i)
+                        changed = True
+            self._div = [i not in can for i in range(self.n)]
+        return self._div[b]
+
     @property
     def exits(self):
         return [i for i, b in enumerate(self.blocks) if b['term']['k'] == 'return']
